@@ -275,6 +275,9 @@ def run(rep):
             rep.ob("R-C08-siblings", variant, "FastFixedIn" in d and "FastFixedOut" in d and d["FastFixedIn"] == d["FastFixedOut"],
                    "FastFixedIn %s vs FastFixedOut %s" % (d.get("FastFixedIn"), d.get("FastFixedOut")), "src/asynchro_fast.rs")
     rep.guarded("R-C08-siblings", fast_siblings)
+    import shares
+    shares.step(rep, ASYNC, "FixedIn and FixedOut variants walk the same sequence of instants")
+    shares.provision(rep, ("SincFixedOut", "FastFixedOut"), "a frame that was not supplied is read as stale buffer content, which depends on earlier chunking")
     rep.floor("R-C05-shift", 1 + 4 * 3)
     rep.floor("R-C05-rebase", 8)
     rep.floor("R-C05-preroll", 4 * 3 + 18)
